@@ -1,0 +1,11 @@
+//go:build verif
+
+// Contracts for the deductive verifier in /verif (gvc). Comment-only: compiled only under the build
+// tag `verif`, contains no code.
+package ignore
+
+//@ func ReadIgnoreAnnotations
+//@   props C07 C08 C14 C10
+//@   requires cfg != nil
+//@   fresh
+//@   ensures result != nil && isetInv(result)
